@@ -231,3 +231,13 @@ package parse
 //@ func (EmptyArg).Parse
 //@   nopanic
 //@   ensures iff(result == nil, a.arg == "")
+
+// ---------------------------------------------------------------------------
+// Parse-tree accessors used by the compiler: pure (they modify nothing).
+//@ func (Node).Name
+//@   nopanic
+//@ func (Node).Type
+//@   nopanic
+//@   ensures result == node_type(self)
+//@ func (Node).Statement
+//@   nopanic
